@@ -180,6 +180,66 @@ pub fn strip_colors_bytes(input: &[u8]) -> Result<Vec<u8>> {
     strip_ansi_escapes::strip(input).context("strip ansi escape sequences from rendered output")
 }
 
+/// Removes the ANSI escape sequences (ECMA-48) from the given bytes and keeps
+/// every other byte as it is, including control characters that are no escape
+/// sequences (TAB, CR, BEL, ..) and bytes that are not valid UTF-8
+pub fn strip_ansi_sequences_bytes(input: &[u8]) -> Vec<u8> {
+    const ESC: u8 = 0x1b;
+    let skip_while = |mut index: usize, from: u8, to: u8| {
+        while index < input.len() && (from..=to).contains(&input[index]) {
+            index += 1;
+        }
+        index
+    };
+    let skip_one = |index: usize, from: u8, to: u8| {
+        if index < input.len() && (from..=to).contains(&input[index]) {
+            index + 1
+        } else {
+            index
+        }
+    };
+    let mut output = Vec::with_capacity(input.len());
+    let mut index = 0;
+    while index < input.len() {
+        let byte = input[index];
+        index += 1;
+        if byte != ESC {
+            output.push(byte);
+            continue;
+        }
+        match input.get(index) {
+            // CSI: parameter bytes, intermediate bytes, one final byte
+            Some(b'[') => {
+                index = skip_while(index + 1, 0x30, 0x3f);
+                index = skip_while(index, 0x20, 0x2f);
+                index = skip_one(index, 0x40, 0x7e);
+            }
+            // OSC, DCS, SOS, PM, APC: a string up to and including BEL or ST
+            Some(b']' | b'P' | b'X' | b'^' | b'_') => {
+                index += 1;
+                while index < input.len() {
+                    if input[index] == 0x07 {
+                        index += 1;
+                        break;
+                    }
+                    if input[index] == ESC && input.get(index + 1) == Some(&b'\\') {
+                        index += 2;
+                        break;
+                    }
+                    index += 1;
+                }
+            }
+            // any other escape sequence: intermediate bytes, one final byte
+            Some(_) => {
+                index = skip_while(index, 0x20, 0x2f);
+                index = skip_one(index, 0x30, 0x7e);
+            }
+            None => {}
+        }
+    }
+    output
+}
+
 #[cfg(test)]
 mod tests {
 
